@@ -368,7 +368,7 @@ def gen(ctx, emit):
             for r in (1, 2, 3, 4, 5, 6, 7):
                 emit("recover %s 1 %d 1 ~" % (tok, r))
             # ---- random stream
-            for _ in range(ctx.n(5, 140)):
+            for _ in range(ctx.n(4, 140)):
                 d = rng.choice([rng.randrange(1, n), rng.randrange(1, n), rng.randrange(1, 2 ** 64), n - rng.randrange(1, 1000)])
                 z = rng.choice([rng.randrange(1, two256), rng.randrange(1, two256), rng.randrange(1, n), rng.getrandbits(rng.randrange(1, 257)) or 1])
                 emit("sign %s %d %d" % (tok, d, z))
@@ -425,9 +425,11 @@ def gen(ctx, emit):
             emit("toy_sign %s %d %d" % (tok, d, n + 2), "toy-table")
         emit("toy_verify %s 1 1" % tok, "toy-table")
         emit("toy_verify %s 2 %d" % (tok, n + 1), "toy-table")
-        emit("toy_verify %s %d %d" % (tok, n - 1, 2 ** 256 - 1), "toy-table")
-        for r in range(1, n):
-            emit("recover %s 5 %d 3 ~" % (tok, r))
+        if ctx.thorough:
+            emit("toy_verify %s %d %d" % (tok, n - 1, 2 ** 256 - 1), "toy-table")
+        for r in sorted({1, 2, 3, p - 1, p, p + 1, n - 2, n - 1}):
+            if 1 <= r < n:
+                emit("recover %s 5 %d 3 ~" % (tok, r))
     chosen = rng.sample(toy, ctx.n(3, 40))
     for tok in chosen:
         p, ca, cb, gx, gy, n = consts(tok)
